@@ -1,13 +1,21 @@
 """C18 — construct selection agrees with construct identities and keys.
 
-Streams (all three: real cfdm vs Lean model vs independent oracle)
+Streams (real cfdm vs Lean model vs independent oracle, unless stated)
   C18.sel  a program on ``f.constructs``: ``filter(**kw)`` / ``filter_by_*`` chains of
            up to three filters, ``inverse_filter(depth)``, ``unfilter(depth)``,
            ``todict`` on/off                                   -> sorted selected keys
   C18.acc  ``f.construct / construct_key / construct_item / coordinate /
            dimension_coordinate / auxiliary_coordinate / cell_measure / ...`` with
-           identities, filter keywords and ``default``         -> key | default | raised
-  C18.dax  ``f.domain_axes(*ids)`` / ``f.domain_axis(*ids, default=)``
+           identities (positional or keyword), filter keywords and ``default``
+                                                               -> key | default | raised
+           with def=all the plural accessor (``f.coordinates(...)`` ...) -> keys
+  C18.dax  ``f.domain_axes(*ids, **filter_kw)`` / ``f.domain_axis(*ids, default=, **filter_kw)``
+  C18.cm   ``f.cell_methods(*ids, **filter_kw)`` / ``f.cell_method(...)`` (identities, keys and
+           the extra route through a domain axis)
+  C18.dak  ``f.domain_axis_key(*ids, default=, **filter_kw)``
+  C18.err  the stated TypeError / ValueError cases           (implementation vs table, no model)
+  C18.idn  ``c.identity()`` is one of ``c.identities()`` and selects ``c``   (no model)
+All of them on the field and (``on="domain"``) on its Domain.
 
 Every field is abstracted, through public accessors only (``c.identities()``,
 ``c.properties()``, ``f.constructs.data_axes()``, ``nc_get_variable`` ...), into the
@@ -24,8 +32,23 @@ from .. import fw
 from ..fw import Case
 
 REQUIRED = [
+    "C18_short_flag_is_conjunction",
+    "C18_identity_order_independent",
+    "C18_identity_perm",
+    "C18_inverse_of_inverse",
+    "C18_plural_accessor",
+    "C18_domain_axis_key",
+    "C18_domain_axes_sound",
+    "C18_domain_axes_complete",
+    "C18_domain_axes_single",
+    "C18_domain_axes_kw_old_counterexample",
+    "C18_cell_methods_sound",
+    "C18_cell_methods_complete",
+    "C18_cell_methods_old_counterexample",
     "C18_short_iteration_loses_nothing",
     "C18_identity_sound_complete",
+    "C18_identity_exact",
+    "C18_identity_sound_complete_not_all_keys",
     "C18_filter_sound_complete",
     "C18_chain_intersection",
     "C18_chain_order_independent",
@@ -41,33 +64,47 @@ REQUIRED = [
     "C18_axis_identity_old_counterexample",
     "C18_foreign_key_identity_counterexample",
 ]
-BUDGET = {"quick": 12000, "thorough": 240000}
+BUDGET = {"quick": 24000, "thorough": 300000}
 QUICK_JOBS = 4
-TIME_LIMIT = {"quick": 150, "thorough": 1200}
+TIME_LIMIT = {"quick": 170, "thorough": 1300}
 RULE = (
-    "fields = cfdm.example_field(0..11), unchanged and mutated (properties / netCDF names / measures / bounds "
-    "properties set and deleted, constructs of every type added), and fields built ab initio with every construct "
-    "type, duplicate identities, constructs with no identity, ncvar/ncdim names, size-1 axes, cell measures / "
-    "topologies with a standard_name, bounds with their own standard_name; queries = every identity string a "
-    "construct reports, keys, key%keys, non-matching strings, literal / ^prefix / alternation regular expressions, "
-    "integers; all filter_by_* methods and modes (property and/or, axis and/or/exact/subset, empty argument lists), "
-    "filter(**kw) and method chains of <= 3 filters, inverse_filter / unfilter with depth None..3, todict on/off; "
-    "single-construct accessors with default None / value / exception.  non-trivial = the selected set is a "
-    "non-empty proper subset of the constructs (sel, dax) or a construct is returned (acc); distinct = distinct "
-    "(field spec, query)"
+    "fields = cfdm.example_field(0..11), unchanged and mutated (string and numeric properties / netCDF names / measures / "
+    "bounds properties set and deleted, constructs of every type added), fields built ab initio with every construct "
+    "type, duplicate identities, constructs with no identity, ncvar/ncdim names, size-1 axes, cell measures / topologies "
+    "with a standard_name, bounds with their own standard_name, cell methods with 0 / 1 / 2 axes, a standard-name axis or "
+    "no axes, numeric scalar and 1-d array properties of several data types; each field also through its Domain; queries = "
+    "every identity string a construct reports, keys, key%keys, non-matching strings, literal / ^prefix / alternation "
+    "regular expressions, integers, numbers and arrays (same / other data type, shape, value); ordered pairs and triples "
+    "of identities in mixed forms in every order with a construct matched only through a non-first, non-bare value; all "
+    "filter_by_* methods (also cell, connectivity) and modes (property and/or, axis and/or/exact/subset with the same axis "
+    "named several times, empty argument lists), filter(**kw) and method chains of <= 3 filters, chains with an EMPTY "
+    "intermediate collection followed by unfilter()/unfilter(n)/inverse_filter()/inverse_filter(n), inverse_filter(depth) "
+    "directly after an inverse filter, todict on/off; single-construct and plural accessors (positional or keyword "
+    "identities, no argument at all) with default None / value / exception, domain_axes / domain_axis / cell_methods / "
+    "cell_method with identities and filter keywords, domain_axis_key, the stated TypeError/ValueError cases.  "
+    "non-trivial = the selected set is a non-empty proper subset of the constructs (sel, dax, cm, plural) or a construct / "
+    "key is returned (acc, dak) or a stated error is demanded (err); distinct = distinct (field spec, target, query)"
 )
 ASSUMPTIONS = [
-    "values and identities are compared as strings; regular expressions are restricted to alternations of literals (re.search) and ^literals (prefix)",
+    "identities, keys, measures, methods and netCDF names are strings; property values are strings or numeric scalars / 1-d arrays tagged with their numpy data type (floats are multiples of 1/4 so that the tolerance of _equals plays no role; masked, n-d and string arrays are not generated); regular expressions are restricted to alternations of literals (re.search) and ^literals (prefix)",
     "filter_by_data / the empty-argument forms select by construct *type* (could have data), as the code does; actual presence of data is not modelled",
     "axis resolution (_filter_convert_to_domain_axis) is shared between the Lean model and the Lean spec; its independent statement is the Python oracle",
-    "inverse_filter(depth>=1) directly after another inverse_filter is documented inconsistently: model-vs-implementation only, no oracle verdict",
-    "Field.cell_method(s) with identities (extra domain-axis route) and domain_axes with extra filter keywords are not explored",
-    "exclusion: a construct identity equal to the key of another construct (generated rarely, recorded as a known finding)",
+    "inverse_filter(depth) directly after another inverse_filter has a verdict only for depth 1 after a single inverse (C18_inverse_of_inverse); other depths are documented inconsistently: model-vs-implementation only",
+    "domain_axes / cell_methods with several values: the docstring ('additionally') and the code (second route only for values that hit nothing) differ when a value names a domain axis directly and also stands for another one; the oracle accepts any result between the two readings there (lower/upper sets, C18_domain_axes_sound/_complete), the model still pins the implementation; cell_methods cases of that kind are not generated (the misses are passed on as a set, order = hash order)",
+    "domain_axis_identity (the identity OF an axis, not a selection) and the `cached` keyword are outside the check",
+    "exclusion: every value of a call is the key of a construct and one of them is also an identity of another construct (generated rarely, recorded as a known finding; with any non-key value in the call selection is proved and checked exact)",
 ]
 
 ARRAY = ("auxiliary_coordinate", "dimension_coordinate", "domain_ancillary", "field_ancillary",
          "cell_measure", "domain_topology", "cell_connectivity")
 TYPES = ARRAY + ("domain_axis", "coordinate_reference", "cell_method")
+PLURAL = {
+    "construct": "constructs", "coordinate": "coordinates", "dimension_coordinate": "dimension_coordinates",
+    "auxiliary_coordinate": "auxiliary_coordinates", "cell_measure": "cell_measures",
+    "domain_ancillary": "domain_ancillaries", "field_ancillary": "field_ancillaries",
+    "coordinate_reference": "coordinate_references", "domain_topology": "domain_topologies",
+    "cell_connectivity": "cell_connectivities",
+}
 ACCESSORS = {
     "construct": (), "construct_key": (), "construct_item": (),
     "coordinate": ("dimension_coordinate", "auxiliary_coordinate"),
@@ -100,6 +137,16 @@ NCV = ["lat", "y", "time", "v1", "foo", "a_bnds"]
 NCD = ["y", "x", "dim0", "time", "foo"]
 PROPN = ["units", "long_name", "standard_name", "axis", "cf_role", "foo", "positive", "comment"]
 PROPV = ["m", "K", "X", "T", "up", "bar", "foo", "degrees north", "a=b", "timeseries_id"]
+# numeric property values: [dtype, scalar?, values (floats scaled by 4), native Python object?]
+NUMV = [
+    ["int64", True, [90], True], ["int64", True, [-90], True], ["int64", True, [0], True], ["int64", True, [90], False],
+    ["float64", True, [360], True], ["float64", True, [2], True], ["float64", True, [-5], False],
+    ["int32", True, [90], False], ["float32", True, [2], False], ["bool", True, [1], True],
+    ["int64", False, [1, 2, 4], False], ["int64", False, [1, 2, 4], True], ["int64", False, [1, 2], True],
+    ["int64", False, [90], False], ["float64", False, [2, 6], False], ["int32", False, [1, 2, 4], False],
+    ["float64", False, [4, 8, 16], True],
+]
+NUMP = ["valid_max", "valid_min", "flag_values", "scale_factor", "foo"]
 MEAS = ["area", "volume", "foo"]
 METH = ["mean", "maximum", "point", "foo"]
 CELLS = ["face", "edge", "point"]
@@ -120,9 +167,48 @@ def gen_props(rng, allow_empty=True):
         p["cf_role"] = rng.choice(["timeseries_id", "foo"])
     if rng.random() < 0.15:
         p[rng.choice(["foo", "comment", "positive"])] = rng.choice(PROPV)
+    if rng.random() < 0.12:
+        p[rng.choice(NUMP)] = {"n": rng.choice(NUMV)}
     if not allow_empty and not p:
         p["long_name"] = rng.choice(LN)
     return p
+
+
+def py_num(n):
+    """The Python / numpy object of a numeric value spec [dtype, scalar, values, native]."""
+    import numpy as np
+    dt, sc, vals = n[0], n[1], n[2]
+    native = n[3] if len(n) > 3 else False
+    kind = np.dtype(dt).kind
+    xs = [v / 4 for v in vals] if kind == "f" else [bool(v) for v in vals] if kind == "b" else list(vals)
+    if sc:
+        if native and dt in ("int64", "float64", "bool"):
+            return xs[0]
+        return np.dtype(dt).type(xs[0])
+    if native and dt in ("int64", "float64"):
+        return xs
+    return np.array(xs, dtype=dt)
+
+
+def canon_num(v):
+    """[dtype, scalar, values] of a non-string property value, or None if outside the abstraction."""
+    import numpy as np
+    a = np.asanyarray(v)
+    if np.ma.isMA(a) or a.ndim > 1 or a.dtype.kind not in "iufb":
+        return None
+    xs = a.reshape(-1).tolist()
+    if a.dtype.kind == "f":
+        ys = [x * 4 for x in xs]
+        if any(y != int(y) for y in ys):
+            return None
+        xs = [int(y) for y in ys]
+    else:
+        xs = [int(x) for x in xs]
+    return [a.dtype.name, a.ndim == 0, xs]
+
+
+def py_props(props):
+    return {n: (py_num(v["n"]) if isinstance(v, dict) else v) for n, v in props.items()}
 
 
 def gen_construct(rng, t, naxes_avail, keys_so_far):
@@ -158,7 +244,13 @@ def gen_construct(rng, t, naxes_avail, keys_so_far):
             s["props"]["standard_name"] = rng.choice(keys_so_far)
     elif t == "cell_method":
         s["method"] = rng.choice(METH) if rng.random() < 0.9 else None
-        s["axes"] = rng.sample(range(naxes_avail), min(1, naxes_avail))
+        r = rng.random()
+        if r < 0.07:
+            s["axes"] = None                     # no axes at all: get_axes(None) is None
+        elif r < 0.14:
+            s["axes"] = ["area"]                 # a standard name, not a domain axis
+        else:
+            s["axes"] = rng.sample(range(naxes_avail), min(rng.choice([1, 1, 1, 1, 2, 0]), naxes_avail))
     elif t == "coordinate_reference":
         s["sn"] = rng.choice(SN[:6]) if rng.random() < 0.4 else None
         s["gm"] = rng.choice(["rotated_latitude_longitude", "latitude_longitude"]) if rng.random() < 0.6 else None
@@ -206,7 +298,7 @@ def expand_field_spec(spec):
         keys, ctype, nax = [], {}, len(spec["axes"])
     add = []
     for _ in range(n_add):
-        t = rng.choice(TYPES[:7] + TYPES[:7] + ("cell_method", "coordinate_reference", "cell_measure", "auxiliary_coordinate"))
+        t = rng.choice(TYPES[:7] + TYPES[:7] + ("cell_method", "cell_method", "cell_method", "coordinate_reference", "cell_measure", "auxiliary_coordinate"))
         s = gen_construct(rng, t, nax, keys)
         if s is not None:
             add.append(s)
@@ -216,8 +308,10 @@ def expand_field_spec(spec):
             break
         k = rng.choice(keys)
         t = ctype[k]
-        op = rng.choice(["setp", "setp", "delp", "ncvar", "ncdim", "measure", "bsetp", "bncvar"])
-        if op == "setp" and t in ARRAY:
+        op = rng.choice(["setp", "setp", "delp", "ncvar", "ncdim", "measure", "bsetp", "bncvar", "setn"])
+        if op == "setn" and t in ARRAY:
+            muts.append(["setp", k, rng.choice(NUMP), {"n": rng.choice(NUMV)}])
+        elif op == "setp" and t in ARRAY:
             muts.append(["setp", k, rng.choice(PROPN), rng.choice(SN + PROPV)])
         elif op == "delp" and t in ARRAY:
             muts.append(["delp", k, rng.choice(["standard_name", "long_name", "units"])])
@@ -259,7 +353,7 @@ def build_field(spec):
         if c is None:
             continue
         if op == "setp":
-            c.set_property(m[2], m[3])
+            c.set_property(m[2], py_num(m[3]["n"]) if isinstance(m[3], dict) else m[3])
         elif op == "delp":
             c.del_property(m[2], None)
         elif op == "ncvar":
@@ -284,7 +378,7 @@ def build_field(spec):
     for s in spec["add"]:
         t = s["t"]
         if t in ARRAY:
-            c = cls[t](properties=dict(s["props"]))
+            c = cls[t](properties=py_props(s["props"]))
             axes = [dak[i] for i in s["axes"]]
             shape = [sizes[a] or 1 for a in axes]
             if t in ("domain_topology", "cell_connectivity"):
@@ -309,7 +403,10 @@ def build_field(spec):
                 c.set_connectivity(s["connectivity"])
             f.set_construct(c, axes=axes)
         elif t == "cell_method":
-            c = C.CellMethod(axes=[dak[i] for i in s["axes"]])
+            if s["axes"] is None:
+                c = C.CellMethod()
+            else:
+                c = C.CellMethod(axes=[a if isinstance(a, str) else dak[a] for a in s["axes"]])
             if s["method"] is not None:
                 c.set_method(s["method"])
             f.set_construct(c)
@@ -323,11 +420,11 @@ def build_field(spec):
             if s["ncvar"] is not None:
                 c.nc_set_variable(s["ncvar"])
             f.set_construct(c)
-    # the model compares values as strings: drop the (rare) non-string properties
+    # property values outside the abstraction (strings, numeric scalars and 1-d arrays) are dropped
     for c in f.constructs.todict().values():
         if hasattr(c, "properties"):
             for n, v in list(c.properties().items()):
-                if not isinstance(v, str):
+                if not isinstance(v, str) and canon_num(v) is None:
                     c.del_property(n)
             b = c.get_bounds(None) if hasattr(c, "get_bounds") else None
             if b is not None:
@@ -357,18 +454,22 @@ def abstract(f):
                 raise fw.HarnessError(f"identities of {key} do not end with its bounds' identities")
         r = dict(
             key=key, type=t, ids=ids, npre=npre, npost=npost,
-            props=dict(c.properties()) if hasattr(c, "get_property") else None,
+            props={n: (v if isinstance(v, str) else canon_num(v)) for n, v in c.properties().items()}
+            if hasattr(c, "get_property") else None,
             axes=list(data_axes[key]) if key in data_axes else None,
+            cmaxes=(None if c.get_axes(None) is None else list(c.get_axes())) if t == "cell_method" else None,
             size=c.get_size(None) if t == "domain_axis" else None,
             measure=c.get_measure(None) if hasattr(c, "get_measure") else None,
             method=c.get_method(None) if hasattr(c, "get_method") else None,
+            cell=c.get_cell(None) if hasattr(c, "get_cell") else None,
+            connectivity=c.get_connectivity(None) if hasattr(c, "get_connectivity") else None,
             has_ncvar=hasattr(c, "nc_get_variable"),
             ncvar=c.nc_get_variable(None) if hasattr(c, "nc_get_variable") else None,
             has_ncdim=hasattr(c, "nc_get_dimension"),
             ncdim=c.nc_get_dimension(None) if hasattr(c, "nc_get_dimension") else None,
         )
         recs.append(r)
-    fa = f.get_data_axes(default=None)
+    fa = f.get_data_axes(default=None) if hasattr(f, "get_data_axes") else None
     return recs, (list(fa) if fa is not None else None)
 
 
@@ -383,13 +484,15 @@ def fingerprint(f):
 _fields = {}
 
 
-def get_field(spec):
-    """(field, pristine copy, fingerprint, records, field axes), cached per process."""
-    k = json.dumps(spec, sort_keys=True)
+def get_field(spec, on=None):
+    """(field or its domain, pristine copy, fingerprint, records, field axes), cached per process."""
+    k = json.dumps(spec, sort_keys=True) + (on or "")
     if k not in _fields:
-        if len(_fields) > 6:
+        if len(_fields) > 8:
             _fields.pop(next(iter(_fields)))
         f = build_field(spec)
+        if on == "domain":
+            f = f.get_domain()
         recs, fa = abstract(f)
         _fields[k] = (f, f.copy(), fingerprint(f), recs, fa)
     return _fields[k]
@@ -411,7 +514,7 @@ def enc_rec(r):
     pre = ids[: r["npre"]]
     post = ids[len(ids) - r["npost"]:] if r["npost"] else []
     body = ids[r["npre"]: len(ids) - r["npost"]]
-    props = "-" if r["props"] is None else enc_list(sorted(r["props"].items()), lambda kv: hx(kv[0]) + ":" + hx(kv[1]))
+    props = "-" if r["props"] is None else enc_list(sorted(r["props"].items()), lambda kv: hx(kv[0]) + ":" + enc_pv(kv[1]))
 
     def opt(v):
         return "-" if v is None else "s" + hx(v)
@@ -423,7 +526,17 @@ def enc_rec(r):
         opt(r["measure"]), opt(r["method"]),
         opt(r["ncvar"]) if r["has_ncvar"] else "!",
         opt(r["ncdim"]) if r["has_ncdim"] else "!",
+        "-" if r.get("cmaxes") is None else enc_list(r["cmaxes"], hx),
+        opt(r.get("cell")), opt(r.get("connectivity")),
     ])
+
+
+def enc_num(n):
+    return f"{n[0]}/{int(bool(n[1]))}/" + "_".join(str(v) for v in n[2])
+
+
+def enc_pv(v):
+    return "s" + hx(v) if isinstance(v, str) else "n" + enc_num(v)
 
 
 def enc_q(q):
@@ -431,6 +544,8 @@ def enc_q(q):
         return "s:" + hx(q["s"])
     if "i" in q:
         return "i:" + str(q["i"])
+    if "n" in q:
+        return "n:" + enc_num(q["n"])
     return "p:" + "/".join(("^" if a else "") + hx(l) for a, l in q["p"])
 
 
@@ -474,12 +589,15 @@ def py_q(q):
         return q["s"]
     if "i" in q:
         return q["i"]
+    if "n" in q:
+        return py_num(q["n"])
     return re.compile("|".join(("^" if a else "") + re.escape(l) for a, l in q["p"]))
 
 
 METHOD = {"id": "filter_by_identity", "ty": "filter_by_type", "key": "filter_by_key", "pr": "filter_by_property",
           "ax": "filter_by_axis", "nx": "filter_by_naxes", "sz": "filter_by_size", "ms": "filter_by_measure",
-          "mt": "filter_by_method", "nv": "filter_by_ncvar", "nd": "filter_by_ncdim", "da": "filter_by_data"}
+          "mt": "filter_by_method", "nv": "filter_by_ncvar", "nd": "filter_by_ncdim", "da": "filter_by_data",
+          "cl": "filter_by_cell", "cn": "filter_by_connectivity"}
 
 
 def py_args(f):
@@ -527,18 +645,47 @@ def call_method(coll, f, todict, call_form=False):
 def o_match(q, v):
     if "s" in q:
         return q["s"] == v
-    if "i" in q:
+    if "i" in q or "n" in q:
         return False
     return py_q(q).search(v) is not None
 
 
+def o_pmatch(q, v):
+    """A property value `v` (string, or [dtype, scalar, values]) against a query value: strings and
+    patterns as everywhere else; a number only equals the same number(s) of the same type and shape."""
+    if isinstance(v, str):
+        return o_match(q, v)
+    if "i" in q:
+        return v == ["int64", True, [q["i"]]]
+    if "n" in q:
+        return v == list(q["n"][:3])
+    return False
+
+
+_HEAD_SHORT = False     # only inside _as_head(): what the open short-iteration finding makes of the same call
+
+
 def o_identity(r, qs):
+    ids = r["ids"]
+    if _HEAD_SHORT and all("s" in q and not any(ch in q["s"] for ch in "=:%") for q in qs):
+        ids = ids[:1]
     for q in qs:
         if "s" in q and (q["s"] == r["key"] or q["s"] == "key%" + r["key"]):
             return True
-        if any(o_match(q, s) for s in r["ids"]):
+        if any(o_match(q, s) for s in ids):
             return True
     return False
+
+
+def _as_head(c):
+    """The output predicted for HEAD's short iteration (Container._iter stops after the very first
+    identity when every value is a bare string) - used only to recognise the recorded finding."""
+    global _HEAD_SHORT
+    _HEAD_SHORT = True
+    try:
+        return o_expected(c)
+    finally:
+        _HEAD_SHORT = False
 
 
 def o_resolve(recs, fa, v, check_ids=True):
@@ -573,7 +720,7 @@ def o_sat(recs, fa, f, r):
             return False
         if not a:
             return True
-        tests = [n in r["props"] and (v is None or o_match(v, r["props"][n])) for n, v in a]
+        tests = [n in r["props"] and (v is None or o_pmatch(v, r["props"][n])) for n, v in a]
         return any(tests) if f["mode"] == "or" else all(tests)
     if k == "da":
         return r["type"] in ARRAY
@@ -591,8 +738,9 @@ def o_sat(recs, fa, f, r):
         return r["axes"] is not None and len(r["axes"]) in a
     if k == "sz":
         return r["type"] == "domain_axis" and (not a or (r["size"] is not None and r["size"] in a))
-    if k in ("ms", "mt"):
-        want, val = ("cell_measure", r["measure"]) if k == "ms" else ("cell_method", r["method"])
+    if k in ("ms", "mt", "cl", "cn"):
+        want, val = {"ms": ("cell_measure", r["measure"]), "mt": ("cell_method", r["method"]),
+                     "cl": ("domain_topology", r.get("cell")), "cn": ("cell_connectivity", r.get("connectivity"))}[k]
         return r["type"] == want and (not a or (val is not None and any(o_match(q, val) for q in a)))
     if k in ("nv", "nd"):
         has, val = (r["has_ncvar"], r["ncvar"]) if k == "nv" else (r["has_ncdim"], r["ncdim"])
@@ -622,40 +770,76 @@ def o_program(recs, fa, prog):
             hist, inv = hist[:keep], inv[:keep]
         else:
             d = s["d"]
+            if d == 1 and inv[-1] and not inv[-2]:
+                # the inverse of an inverse, relative to the collection before it, is that collection
+                # (C18_inverse_of_inverse); the implementation also returns it with its history
+                hist, inv = hist[:-1], inv[:-1]
+                continue
             if d and inv[-1]:
-                return None     # inverse of an inverse with a depth: no documented meaning
+                return None     # other depths after an inverse filter: no documented meaning
             rel = hist[0] if (d is None or d >= len(hist)) else hist[len(hist) - 1 - d]
             hist.append(rel - cur)
             inv.append(True)
     return hist[-1]
 
 
-def o_dax(recs, fa, ids):
-    das = [r for r in recs if r["type"] == "domain_axis"]
+def o_scope(recs, fa, t, flts):
+    return [r for r in recs if r["type"] == t and all(o_sat(recs, fa, f, r) for f in flts)]
+
+
+def o_dax(recs, fa, ids, flts=()):
+    """(lower, upper) key sets of domain_axes(*ids, **flts).
+    lower: a value selects the eligible domain axes it names directly (key / identity), and only when there
+    are none the axis it stands for through a 1-d coordinate or a data position (how the code means it);
+    upper: both routes for every value (the docstring's "additionally").  The two differ only when a
+    value names a domain axis directly *and* stands for another one."""
+    scope = o_scope(recs, fa, "domain_axis", flts)
     if not ids:
-        return {r["key"] for r in das}
-    out = set()
+        ks = {r["key"] for r in scope}
+        return ks, ks
+    lower, upper = set(), set()
     for q in ids:
-        direct = {r["key"] for r in das if o_identity(r, [q])}
-        if direct:
-            out |= direct
-        else:
-            a, _ = o_resolve(recs, fa, q, check_ids=False)
-            if a is not None:
-                out.add(a)
-    return out
+        direct = {r["key"] for r in scope if o_identity(r, [q])}
+        lower |= direct
+        upper |= direct
+        a, _ = o_resolve(recs, fa, q, check_ids=False)
+        if a is not None and any(r["key"] == a for r in scope):
+            upper.add(a)
+            if not direct:
+                lower.add(a)
+    return lower, upper
+
+
+def o_cm(recs, fa, ids, flts=()):
+    """(lower, upper) key sets of cell_methods(*ids, **flts): eligible cell methods named directly, and
+    for the values that name no eligible cell method those whose only axis is one of domain_axes(value)."""
+    scope = o_scope(recs, fa, "cell_method", flts)
+    if not ids:
+        ks = {r["key"] for r in scope}
+        return ks, ks
+    lower, upper = set(), set()
+    for q in ids:
+        direct = {r["key"] for r in scope if o_identity(r, [q])}
+        lower |= direct
+        upper |= direct
+        lo, up = o_dax(recs, fa, [q])
+        for r in scope:
+            if r["cmaxes"] is not None and len(r["cmaxes"]) == 1:
+                if r["cmaxes"][0] in up:
+                    upper.add(r["key"])
+                if not direct and r["cmaxes"][0] in lo:
+                    lower.add(r["key"])
+    return lower, upper
 
 
 def show_keys(ks):
     return "keys=[" + ",".join(sorted(ks)) + "]"
 
 
-def o_expected(c):
+def o_selected(c):
+    """(lower, upper) sets of keys the call may select; equal wherever the property gives one answer."""
     p = c.payload
     recs, fa = p["recs"], p["fa"]
-    if c.stream == "C18.sel":
-        ks = o_program(recs, fa, p["prog"])
-        return None if ks is None else show_keys(ks)
     if c.stream == "C18.acc":
         fs = []
         ts = ACCESSORS[p["acc"]]
@@ -664,18 +848,61 @@ def o_expected(c):
         fs += p["flts"]
         if p["ids"]:
             fs.append({"f": "id", "a": p["ids"]})
-        sel = [r["key"] for r in recs if all(o_sat(recs, fa, f, r) for f in fs)]
-        if len(sel) == 1:
-            return "key=" + sel[0]
-        return "raised:ValueError" if p["def"] == "exc" else "default"
+        ks = {r["key"] for r in recs if all(o_sat(recs, fa, f, r) for f in fs)}
+        return ks, ks
+    if c.stream == "C18.dak":
+        # the domain axes spanned by the selected 1-d coordinates
+        fs = [{"f": "ty", "a": ["dimension_coordinate", "auxiliary_coordinate"]}] + p["flts"] + [{"f": "nx", "a": [1]}]
+        if p["ids"]:
+            fs.append({"f": "id", "a": p["ids"]})
+        das = {r["key"] for r in recs if r["type"] == "domain_axis"}
+        ks = {r["axes"][0] for r in recs if all(o_sat(recs, fa, f, r) for f in fs)} & das
+        return ks, ks
     if c.stream == "C18.dax":
-        ks = o_dax(recs, fa, p["ids"])
-        if p["def"] == "all":
-            return show_keys(ks)
-        if len(ks) == 1:
-            return "key=" + next(iter(ks))
-        return "raised:ValueError" if p["def"] == "exc" else "default"
+        return o_dax(recs, fa, p["ids"], p.get("flts", []))
+    if c.stream == "C18.cm":
+        return o_cm(recs, fa, p["ids"], p.get("flts", []))
     raise fw.HarnessError("unknown stream " + c.stream)
+
+
+ERR_KINDS = {
+    # kind: expected observable
+    "filter-unknown-keyword": "raised:TypeError",
+    "axis-mode-invalid": "raised:ValueError",
+    "axis-mode-invalid-no-axes": None,            # not checked when no axis is given: same as filter_by_data
+    "property-mode-invalid": "raised:ValueError",
+    "property-mode-two": "raised:ValueError",
+    "accessor-filter-by-type": "raised:TypeError",
+    "accessor-identities-twice": "raised:TypeError",
+    "plural-identities-twice": "raised:TypeError",
+    "domain-axes-filter-by-type": "raised:TypeError",
+    "domain-axes-identities-twice": "raised:TypeError",
+    "call-identities-twice": "raised:TypeError",
+    "cell-methods-identities-twice": "raised:TypeError",
+    "default-exception-instance": "raised:KeyError",
+}
+
+
+def o_expected(c):
+    p = c.payload
+    if c.stream == "C18.idn":
+        return "reported-and-selects"
+    if c.stream == "C18.err":
+        exp = ERR_KINDS[p["err"]]
+        if exp is None:
+            return show_keys(r["key"] for r in p["recs"] if r["type"] in ARRAY)
+        return exp
+    if c.stream == "C18.sel":
+        ks = o_program(p["recs"], p["fa"], p["prog"])
+        return None if ks is None else show_keys(ks)
+    lo, up = o_selected(c)
+    if lo != up:
+        return None
+    if p["def"] == "all":
+        return show_keys(lo)
+    if len(lo) == 1:
+        return "key=" + next(iter(lo))
+    return "raised:ValueError" if p["def"] == "exc" else "default"
 
 
 def oracle(c):
@@ -684,8 +911,16 @@ def oracle(c):
         return "the field was changed by the query: " + x["changed"]
     exp = o_expected(c)
     if exp is None:
-        # no documented meaning: only "does not raise" is demanded
-        return ("raised on a valid program: " + c.impl_out) if str(c.impl_out).startswith("raised") else None
+        out = str(c.impl_out)
+        if out.startswith("raised") and not (out == "raised:ValueError" and c.payload.get("def") == "exc"):
+            return "raised on a valid call: " + out
+        if c.stream != "C18.sel" and out.startswith("keys=["):
+            # between the two readings: every construct of the lower one, none outside the upper one
+            lo, up = o_selected(c)
+            got = set(k for k in out[6:-1].split(",") if k)
+            if not (lo <= got <= up):
+                return f"expected between keys={sorted(lo)} and keys={sorted(up)} got {out}"
+        return None
     if c.impl_out != exp:
         return f"expected {exp} got {c.impl_out}"
     return None
@@ -703,7 +938,7 @@ _SENTINEL = "C18-default-value"
 
 def impl(c):
     p = c.payload
-    f, f0, fp, recs, fa = get_field(p["field"])
+    f, f0, fp, recs, fa = get_field(p["field"], p.get("on"))
     try:
         out = _impl(c, f)
     except Exception as e:
@@ -724,8 +959,61 @@ def _keys_of(x):
     return show_keys(list(x.keys()))
 
 
+def _impl_err(c, f):
+    p = c.payload
+    k = p["err"]
+    s1, s2 = p.get("a", "latitude"), p.get("b", "longitude")
+    if k == "filter-unknown-keyword":
+        return _keys_of(f.constructs.filter(filter_by_foo=(s1,)))
+    if k == "axis-mode-invalid":
+        return _keys_of(f.constructs.filter_by_axis(s1, axis_mode="bad"))
+    if k == "axis-mode-invalid-no-axes":
+        return _keys_of(f.constructs.filter_by_axis(axis_mode="bad"))
+    if k == "property-mode-invalid":
+        return _keys_of(f.constructs.filter_by_property("bad", standard_name=s1))
+    if k == "property-mode-two":
+        return _keys_of(f.constructs.filter_by_property("and", "or", standard_name=s1))
+    if k == "accessor-filter-by-type":
+        return "key=" + str(getattr(f, p["acc"])(s1, key=True, default=None, filter_by_type=("dimension_coordinate",)))
+    if k == "accessor-identities-twice":
+        return "key=" + str(getattr(f, p["acc"])(s1, key=True, default=None, filter_by_identity=(s2,)))
+    if k == "plural-identities-twice":
+        return _keys_of(getattr(f, PLURAL[p["acc"]])(s1, filter_by_identity=(s2,)))
+    if k == "domain-axes-filter-by-type":
+        return _keys_of(f.domain_axes(s1, filter_by_type=("domain_axis",)))
+    if k == "domain-axes-identities-twice":
+        return _keys_of(f.domain_axes(s1, filter_by_identity=(s2,)))
+    if k == "call-identities-twice":
+        return _keys_of(f.constructs(s1, filter_by_identity=(s2,)))
+    if k == "cell-methods-identities-twice":
+        return _keys_of(f.cell_methods(s1, filter_by_identity=(s2,)))
+    if k == "default-exception-instance":
+        return "key=" + str(getattr(f, p["acc"])("nonexistent-identity", key=True, default=KeyError("C18")))
+    raise fw.HarnessError("unknown err kind " + k)
+
+
+def _impl_idn(c, f):
+    """c.identity() is one of c.identities(), and selecting by it returns (at least) c."""
+    key = c.payload["idn"]
+    con = f.constructs.get(key)
+    if con is None:
+        return "reported-and-selects"
+    s = con.identity(default=None)
+    if s is None:
+        return "reported-and-selects"     # (identity() only looks at some of the properties: no claim)
+    if s not in list(con.identities()):
+        return f"identity() {s!r} not in identities()"
+    if key not in f.constructs.filter_by_identity(s, todict=True):
+        return f"not selected by its identity() {s!r}"
+    return "reported-and-selects"
+
+
 def _impl(c, f):
     p = c.payload
+    if c.stream == "C18.idn":
+        return _impl_idn(c, f)
+    if c.stream == "C18.err":
+        return _impl_err(c, f)
     if c.stream == "C18.sel":
         coll = f.constructs
         for s in p["prog"]:
@@ -744,6 +1032,12 @@ def _impl(c, f):
         ids = tuple(py_q(q) for q in p["ids"])
         kw = kwargs_for(p["flts"])
         style = p.get("style", "key")
+        if ids and p.get("idkw"):
+            ids, kw = (), (dict(filter_by_identity=ids, **kw) if p["idkw"] == "first" else dict(kw, filter_by_identity=ids))
+        if p["def"] == "all":
+            if p.get("todict", False):
+                kw["todict"] = True      # (without the keyword and with no argument at all: the filter_by_type short cut)
+            return _keys_of(getattr(f, PLURAL[name])(*ids, **kw))
         meth = getattr(f, name)
         try:
             if name == "construct_key":
@@ -768,12 +1062,26 @@ def _impl(c, f):
         except ValueError:
             return "raised:ValueError"
         return "default" if (r is None or r is _SENTINEL) else "key=" + r
-    if c.stream == "C18.dax":
+    if c.stream == "C18.dak":
         ids = tuple(py_q(q) for q in p["ids"])
-        if p["def"] == "all":
-            return _keys_of(f.domain_axes(*ids, todict=p.get("todict", False)))
         try:
-            r = f.domain_axis(*ids, key=True, default=default)
+            r = f.domain_axis_key(*ids, default=default, **kwargs_for(p["flts"]))
+        except ValueError:
+            return "raised:ValueError"
+        return "default" if (r is None or r is _SENTINEL) else "key=" + r
+    if c.stream in ("C18.dax", "C18.cm"):
+        ids = tuple(py_q(q) for q in p["ids"])
+        kw = kwargs_for(p.get("flts", []))
+        args = ids
+        if ids and p.get("idkw") == "first":
+            args, kw = (), dict(filter_by_identity=ids, **kw)
+        elif ids and p.get("idkw") == "last":
+            args, kw = (), dict(kw, filter_by_identity=ids)
+        plural, single = ("domain_axes", "domain_axis") if c.stream == "C18.dax" else ("cell_methods", "cell_method")
+        if p["def"] == "all":
+            return _keys_of(getattr(f, plural)(*args, todict=p.get("todict", False), **kw))
+        try:
+            r = getattr(f, single)(*args, key=True, default=default, **kw)
         except ValueError:
             return "raised:ValueError"
         return "default" if (r is None or r is _SENTINEL) else "key=" + r
@@ -786,10 +1094,20 @@ def _impl(c, f):
 def mk(stream, payload):
     p = dict(payload)
     p["field"] = expand_field_spec(p["field"])
-    f, f0, fp, recs, fa = get_field(p["field"])
+    f, f0, fp, recs, fa = get_field(p["field"], p.get("on"))
     p["recs"], p["fa"] = recs, fa
     ctx = enc_ctx(recs, fa)
-    tags = ["field:" + ("ex" if p["field"]["base"] is not None else "built")]
+    tags = ["field:" + ("ex" if p["field"]["base"] is not None else "built"), "on:" + (p.get("on") or "field")]
+    if stream == "C18.idn":
+        c = Case(stream, p, None, key=json.dumps(p["field"], sort_keys=True) + "idn" + p["idn"], tags=sorted(set(tags + ["idn"])))
+        c.nontrivial = True
+        return c
+    if stream == "C18.err":
+        # the stated errors: implementation against the table of documented exceptions only (no model line)
+        c = Case(stream, p, None, key=json.dumps(p["field"], sort_keys=True) + json.dumps([p["err"], p.get("acc"), p.get("a"), p.get("b")]),
+                 tags=sorted(set(tags + ["err:" + p["err"]])))
+        c.nontrivial = True
+        return c
     if stream == "C18.sel":
         line = f"C18.sel {ctx} prog=" + ("." if not p["prog"] else "+".join(enc_step(s) for s in p["prog"]))
         q = json.dumps(p["prog"], sort_keys=True)
@@ -806,18 +1124,35 @@ def mk(stream, payload):
     elif stream == "C18.acc":
         line = (f"C18.acc {ctx} acc={p['acc']} ids={enc_qs(p['ids'])} flts=[" + ";".join(enc_filter(x) for x in p["flts"])
                 + f"] def={p['def']}")
-        q = json.dumps([p["acc"], p["ids"], p["flts"], p["def"], p.get("style")], sort_keys=True)
+        q = json.dumps([p["acc"], p["ids"], p["flts"], p["def"], p.get("style"), p.get("todict"), p.get("idkw")], sort_keys=True)
+        if p.get("idkw"):
+            tags.append("acc:idkw")
+        if not p["ids"] and not p["flts"]:
+            tags.append("acc:no-argument")
         tags += ["acc:" + p["acc"], "def:" + p["def"]]
+        if len(p["ids"]) > 1:
+            tags.append("acc:multi-id")
     else:
-        line = f"C18.dax {ctx} ids={enc_qs(p['ids'])} def={p['def']}"
-        q = json.dumps([p["ids"], p["def"]], sort_keys=True)
-        tags.append("dax:" + p["def"])
+        p.setdefault("flts", [])
+        sub = c_sub = stream.split(".")[1]
+        line = (f"{stream} {ctx} ids={enc_qs(p['ids'])} flts=[" + ";".join(enc_filter(x) for x in p["flts"])
+                + f"] def={p['def']}")
+        q = json.dumps([stream, p["ids"], p["flts"], p["def"], p.get("idkw"), p.get("todict")], sort_keys=True)
+        tags.append(sub + ":" + p["def"])
+        if p["flts"]:
+            tags.append(sub + ":kw")
+        if p.get("idkw"):
+            tags.append(sub + ":idkw-" + p["idkw"])
+        if len(p["ids"]) > 1:
+            tags.append(sub + ":multi-id")
     for qq in _all_queries(p):
-        tags.append("q:" + ("str" if "s" in qq else "int" if "i" in qq else "regex"))
-    c = Case(stream, p, line, key=json.dumps(p["field"], sort_keys=True) + q, tags=sorted(set(tags)))
+        tags.append("q:" + ("str" if "s" in qq else "int" if "i" in qq else "num" if "n" in qq else "regex"))
+    tags += _shape_tags(stream, p)
+    c = Case(stream, p, line, key=json.dumps(p["field"], sort_keys=True) + (p.get("on") or "") + q, tags=sorted(set(tags)))
     exp = o_expected(c)
     if exp is None:
         c.nontrivial = True
+        c.tags = tuple(sorted(set(c.tags) | {"no-single-verdict"}))
     elif exp.startswith("keys="):
         n = 0 if exp == "keys=[]" else exp.count(",") + 1
         c.nontrivial = 0 < n < len(recs)
@@ -839,11 +1174,74 @@ def _all_queries(p):
     for s in p.get("prog", []):
         fls += s.get("fs", [])
     for f in fls:
-        if f["f"] in ("id", "key", "ax", "ms", "mt", "nv", "nd"):
+        if f["f"] in ("id", "key", "ax", "ms", "mt", "nv", "nd", "cl", "cn"):
             out += f["a"]
         elif f["f"] == "pr":
             out += [v for _, v in f["a"] if v is not None]
     return out
+
+
+def _form(q):
+    if "p" in q:
+        return "regex"
+    if "s" not in q:
+        return "nonstr"
+    t = q["s"]
+    return "key%" if t.startswith("key%") else "bare" if _bare(t) else "prefixed"
+
+
+def _shape_tags(stream, p):
+    """Tags for the corner shapes the generator families aim at (input distribution in the evidence)."""
+    tags = set()
+    recs, fa = p["recs"], p["fa"]
+    for qs, scope in _identity_lists_scoped(p):
+        if len(qs) > 1:
+            forms = {_form(q) for q in qs}
+            if len(forms) > 1:
+                tags.add("ids:mixed-forms")
+            if _form(qs[0]) == "bare" or _form(qs[-1]) == "bare":
+                # a construct selected only through a value that is neither first nor bare
+                for r in scope:
+                    hit = [i for i, q in enumerate(qs) if o_identity(r, [q])]
+                    if hit and all(_form(qs[i]) != "bare" for i in hit) and r["ids"] and \
+                            not any(o_match(qs[i], r["ids"][0]) for i in hit) and not any(
+                                "s" in qs[i] and qs[i]["s"] in (r["key"], "key%" + r["key"]) for i in hit):
+                        tags.add("ids:only-via-nonfirst-identity")
+    prog = p.get("prog")
+    if prog:
+        byk = {r["key"]: r for r in recs}
+        sizes, inv = [len(recs)], [False]
+        cur = set(byk)
+        for s in prog:
+            if s["k"] in ("F", "M"):
+                for f in s["fs"]:
+                    cur = {k for k in cur if o_sat(recs, fa, f, byk[k])}
+                    sizes.append(len(cur)); inv.append(False)
+                    if f["f"] == "ax" and len(f["a"]) > 1:
+                        res = [o_resolve(recs, fa, v)[0] for v in f["a"]]
+                        res = [a for a in res if a is not None]
+                        if len(res) != len(set(res)):
+                            tags.add("ax:repeated-axis")
+                    if f["f"] == "pr" and any(v is not None and ("n" in v or "i" in v) for _, v in f["a"]):
+                        tags.add("pr:numeric-query")
+                    if f["f"] == "pr" and any(n in (r["props"] or {}) and not isinstance(r["props"][n], str)
+                                              for n, _ in f["a"] for r in recs):
+                        tags.add("pr:numeric-property")
+                if s["todict"]:
+                    break
+            else:
+                if 0 in sizes[1:]:
+                    tags.add("prog:empty-intermediate-then-" + ("inverse" if s["k"] == "I" else "unfilter"))
+                if s["k"] == "I" and s["d"] and inv[-1]:
+                    tags.add("prog:inverse-depth-after-inverse")
+                # history bookkeeping only as far as the tags need it
+                if s["k"] == "I":
+                    sizes.append(-1); inv.append(True)
+                else:
+                    d = s["d"]
+                    keep = 1 if (d is None or d >= len(sizes)) else len(sizes) - d
+                    sizes, inv = sizes[:keep], inv[:keep]
+    return sorted(tags)
 
 
 # ---------------------------------------------------------------- query generators
@@ -871,6 +1269,34 @@ def gen_value_q(rng, pool, miss=("nonexistent", "zzz", "")):
     if r < 0.78:
         return {"s": s + "x"}
     return regex_of(rng, s)
+
+
+def gen_num_q(rng, v):
+    """A query for the numeric property value v = [dtype, scalar, values]."""
+    dt, sc, vals = v[0], v[1], list(v[2])
+    r = rng.random()
+    if r < 0.4:                                   # the same number: Python object or numpy object
+        if sc and dt == "int64" and rng.random() < 0.6:
+            return {"i": vals[0]}
+        return {"n": [dt, sc, vals, rng.random() < 0.5]}
+    if r < 0.55:                                  # same numbers, another data type
+        other = {"int64": ["float64", "int32"], "float64": ["int64", "float32"], "int32": ["int64"],
+                 "float32": ["float64"], "bool": ["int64"]}[dt]
+        o = rng.choice(other)
+        k = (4 if (o.startswith("float") and not dt.startswith("float")) else 1)
+        vv = [x * k for x in vals] if not (dt.startswith("float") and not o.startswith("float")) else [x // 4 for x in vals]
+        return {"n": [o, sc, vv, rng.random() < 0.5]}
+    if r < 0.67:                                  # other shape
+        return {"n": [dt, not sc, vals[:1] if not sc else vals, False]} if dt != "bool" else {"i": vals[0]}
+    if r < 0.8:                                   # other value(s)
+        vv = list(vals)
+        vv[rng.randrange(len(vv))] += 4
+        return {"n": [dt, sc, vv, rng.random() < 0.5]} if dt != "bool" else {"n": ["bool", True, [0], True]}
+    if r < 0.88 and not sc:
+        return {"n": [dt, False, vals + [vals[-1]] if rng.random() < 0.5 else vals[:-1], False]}
+    if r < 0.94:                                  # the number as a string / a pattern over its digits
+        return rng.choice([{"s": str(vals[0])}, {"p": [[False, str(abs(vals[0]))[:1]]]}])
+    return {"i": vals[0]}
 
 
 def gen_identity_q(rng, recs):
@@ -929,7 +1355,7 @@ def gen_axis_q(rng, recs, fa):
 
 
 def gen_filter(rng, recs, fa, kinds=None):
-    k = rng.choice(kinds or ["id", "id", "id", "id", "ty", "ty", "key", "pr", "pr", "ax", "ax", "ax", "nx", "sz", "ms", "mt", "nv", "nd", "da"])
+    k = rng.choice(kinds or ["id", "id", "id", "id", "ty", "ty", "key", "pr", "pr", "ax", "ax", "ax", "nx", "sz", "ms", "mt", "nv", "nd", "da", "cl", "cn"])
     empty = rng.random() < 0.06
     if k == "id":
         return {"f": "id", "a": [] if empty else gen_identity_qs(rng, recs)}
@@ -955,6 +1381,10 @@ def gen_filter(rng, recs, fa, kinds=None):
             r = rng.random()
             if r < 0.2:
                 a.append([n, None])
+            elif not isinstance(v, str):
+                a.append([n, gen_num_q(rng, v)])
+            elif r < 0.24:
+                a.append([n, gen_num_q(rng, rng.choice(NUMV)[:3])])      # a number asked of a string property
             else:
                 a.append([n, gen_value_q(rng, [v], miss=("nonexistent",))])
         return {"f": "pr", "mode": rng.choice(["and", "and", "or"]), "a": a, "omit_mode": rng.random() < 0.5}
@@ -966,8 +1396,8 @@ def gen_filter(rng, recs, fa, kinds=None):
     if k == "sz":
         sizes = [r["size"] for r in recs if r["size"] is not None] or [1]
         return {"f": "sz", "a": [] if empty else sorted({rng.choice(sizes + [1, 7]) for _ in range(rng.choice([1, 1, 2]))})}
-    if k in ("ms", "mt", "nv", "nd"):
-        fld = {"ms": "measure", "mt": "method", "nv": "ncvar", "nd": "ncdim"}[k]
+    if k in ("ms", "mt", "nv", "nd", "cl", "cn"):
+        fld = {"ms": "measure", "mt": "method", "nv": "ncvar", "nd": "ncdim", "cl": "cell", "cn": "connectivity"}[k]
         pool = [r[fld] for r in recs if r.get(fld) is not None]
         return {"f": k, "a": [] if empty else [gen_value_q(rng, pool) for _ in range(rng.choice([1, 1, 2]))]}
     return {"f": "da"}
@@ -1032,8 +1462,25 @@ def gen_acc(rng, recs, fa):
         if f["f"] not in seen:
             seen.add(f["f"])
             flts.append(f)
-    return dict(acc=name, ids=ids, flts=flts, **{"def": rng.choice(["none", "val", "exc", "exc"])},
-                style=rng.choice(["key", "key", "item", "construct"]))
+    d = rng.choice(["none", "val", "exc", "exc"])
+    if name in PLURAL and name != "construct" and rng.random() < 0.2:
+        d = "all"
+    return dict(acc=name, ids=ids, flts=flts, **{"def": d},
+                style=rng.choice(["key", "key", "item", "construct"]), todict=rng.random() < 0.5,
+                idkw=rng.choice([None, None, None, None, "first", "last"]))
+
+
+def gen_dak(rng, recs, fa):
+    coords = [r for r in recs if r["type"] in ("dimension_coordinate", "auxiliary_coordinate")]
+    ids = []
+    if rng.random() < 0.9:
+        ids = [gen_identity_q(rng, coords or recs) for _ in range(rng.choice([1, 1, 1, 2]))]
+    flts, seen = [], set()
+    for _ in range(rng.choice([0, 0, 0, 1, 1])):
+        f = gen_filter(rng, coords or recs, fa, kinds=["key", "pr", "ax", "nv", "da"])
+        if f["f"] not in seen:
+            seen.add(f["f"]); flts.append(f)
+    return dict(ids=ids, flts=flts, **{"def": rng.choice(["none", "val", "exc", "exc"])})
 
 
 def gen_dax(rng, recs, fa):
@@ -1054,17 +1501,248 @@ def gen_dax(rng, recs, fa):
     return dict(ids=ids, **{"def": rng.choice(["all", "all", "none", "val", "exc"])}, todict=rng.random() < 0.5)
 
 
+def _forms_of(rng, rec, s):
+    """The identity string `s` of `rec` as a query in some form."""
+    r = rng.random()
+    if r < 0.6:
+        return {"s": s}
+    return regex_of(rng, s)
+
+
+DECOY_BARE = ["zzz", "nonexistent", "height", "grid latitude"]
+DECOY_PREF = ["long_name=zzz", "standard_name=zzz", "units=zzz", "ncvar%zzz", "ncdim%zzz", "key%zzz", "measure:zzz", "method:zzz"]
+
+
+def gen_multi_ids(rng, recs, scope):
+    """Ordered lists of 2-3 identities in mixed forms in which some construct matches ONLY through one of
+    them; every order of the same set is produced (the result must not depend on it)."""
+    scope = [r for r in scope if r["ids"]] or [r for r in recs if r["ids"]]
+    if not scope:
+        return [[{"s": "zzz"}, {"s": "long_name=zzz"}]]
+    rec = rng.choice(scope)
+    ids = rec["ids"]
+    r = rng.random()
+    if r < 0.6 and len(ids) > 1:
+        hit = _forms_of(rng, rec, rng.choice(ids[1:]))          # reported, but not first
+    elif r < 0.8:
+        hit = _forms_of(rng, rec, ids[0])
+    elif r < 0.9:
+        hit = {"s": rng.choice([rec["key"], "key%" + rec["key"]])}
+    else:
+        hit = regex_of(rng, rng.choice(ids))
+    others = []
+    for _ in range(rng.choice([1, 1, 2])):
+        t = rng.random()
+        if t < 0.45:
+            others.append({"s": rng.choice(DECOY_BARE)})
+        elif t < 0.6:
+            o = rng.choice(scope)
+            others.append({"s": o["ids"][0]})
+        elif t < 0.8:
+            others.append({"s": rng.choice(DECOY_PREF)})
+        elif t < 0.9:
+            others.append({"p": [[rng.random() < 0.5, rng.choice(["zzz", "qq"])]]})
+        else:
+            o = rng.choice(scope)
+            others.append({"s": rng.choice(o["ids"])})
+    vals = [hit] + others
+    import itertools
+    perms = list(itertools.permutations(vals))
+    rng.shuffle(perms)
+    return [list(pm) for pm in perms[: (2 if len(vals) == 2 else 3)]]
+
+
+def fam_multi_ids(rng, spec, recs, fa):
+    out = []
+    r = rng.random()
+    if r < 0.45:
+        for ids in gen_multi_ids(rng, recs, recs):
+            form = rng.random()
+            if form < 0.5:
+                prog = [{"k": "M", "todict": rng.random() < 0.4, "fs": [{"f": "id", "a": ids}], "call": rng.random() < 0.3}]
+            elif form < 0.8:
+                fs = [{"f": "id", "a": ids}]
+                if rng.random() < 0.5:
+                    fs.insert(rng.randrange(2), gen_filter(rng, recs, fa, kinds=["ty", "nx", "da", "pr"]))
+                prog = [{"k": "F", "todict": rng.random() < 0.4, "fs": fs}]
+            else:
+                prog = [{"k": "M", "todict": False, "fs": [gen_filter(rng, recs, fa, kinds=["ty", "nx", "da"])], "call": False},
+                        {"k": "M", "todict": False, "fs": [{"f": "id", "a": ids}], "call": rng.random() < 0.3}]
+            out.append(("C18.sel", dict(field=spec, prog=prog)))
+    elif r < 0.8:
+        name = rng.choice(list(ACCESSORS))
+        ts = ACCESSORS[name]
+        scope = [x for x in recs if not ts or x["type"] in ts]
+        d = rng.choice(["none", "exc", "all"]) if name in PLURAL and name != "construct" else rng.choice(["none", "exc"])
+        style = rng.choice(["key", "construct", "item"])
+        for ids in gen_multi_ids(rng, recs, scope):
+            out.append(("C18.acc", dict(field=spec, acc=name, ids=ids, flts=[], **{"def": d}, style=style, todict=rng.random() < 0.5)))
+    elif r < 0.9:
+        das = [x for x in recs if x["type"] == "domain_axis"]
+        d = rng.choice(["all", "all", "none", "exc"])
+        for ids in gen_multi_ids(rng, recs, das + [x for x in recs if x["type"] in ("dimension_coordinate", "auxiliary_coordinate")]):
+            out.append(("C18.dax", dict(field=spec, ids=ids, flts=[], **{"def": d}, todict=rng.random() < 0.5)))
+    else:
+        cms = [x for x in recs if x["type"] == "cell_method"]
+        d = rng.choice(["all", "all", "none", "exc"])
+        for ids in gen_multi_ids(rng, recs, cms or recs):
+            if sum(1 for q in ids if "p" in q) == 0:
+                out.append(("C18.cm", dict(field=spec, ids=ids, flts=[], **{"def": d}, todict=rng.random() < 0.5)))
+    return out
+
+
+def _empty_filter(rng, recs, fa):
+    return rng.choice([
+        {"f": "id", "a": [{"s": "nonexistent"}]}, {"f": "key", "a": [{"s": "nonexistent"}]},
+        {"f": "nx", "a": [7]}, {"f": "sz", "a": [77]}, {"f": "ms", "a": [{"s": "nonexistent"}]},
+        {"f": "nv", "a": [{"s": "nonexistent"}]}, {"f": "ax", "mode": "and", "a": [{"s": "nonexistent"}]},
+        {"f": "pr", "mode": "and", "a": [["nonexistent", None]], "omit_mode": False},
+    ])
+
+
+def fam_empty_chain(rng, spec, recs, fa):
+    """Chains with an EMPTY intermediate collection, then unfilter()/unfilter(n)/inverse_filter()/inverse_filter(n)."""
+    steps = []
+    n = rng.choice([1, 2, 2, 3])
+    where = rng.randrange(n)
+    kw = rng.random() < 0.3
+    fs = [(_empty_filter(rng, recs, fa) if i == where else gen_filter(rng, recs, fa, kinds=["ty", "nx", "da", "id", "pr", "nv"]))
+          for i in range(n)]
+    if kw:
+        seen, fs2 = set(), []
+        for f in fs:
+            if f["f"] not in seen:
+                seen.add(f["f"]); fs2.append(f)
+        steps.append({"k": "F", "todict": False, "fs": fs2})
+    else:
+        steps += [{"k": "M", "todict": False, "fs": [f], "call": False} for f in fs]
+    for _ in range(rng.choice([1, 1, 2])):
+        steps.append({"k": rng.choice(["U", "U", "I", "I"]), "d": rng.choice([None, None, 1, 1, 2, 3])})
+    if rng.random() < 0.3:
+        steps.append({"k": "M", "todict": rng.random() < 0.3, "fs": [gen_filter(rng, recs, fa)], "call": False})
+    return [("C18.sel", dict(field=spec, prog=steps))]
+
+
+def fam_inverse_inverse(rng, spec, recs, fa):
+    steps = [{"k": "M", "todict": False, "fs": [gen_filter(rng, recs, fa)], "call": False} for _ in range(rng.choice([0, 1, 1, 2]))]
+    steps.append({"k": "I", "d": rng.choice([None, None, 1, 2])})
+    steps.append({"k": "I", "d": rng.choice([1, 1, 1, None, 2])})
+    if rng.random() < 0.5:
+        steps.append(rng.choice([{"k": "U", "d": rng.choice([None, 1])}, {"k": "I", "d": rng.choice([None, 1])},
+                                 {"k": "M", "todict": False, "fs": [gen_filter(rng, recs, fa)], "call": False}]))
+    return [("C18.sel", dict(field=spec, prog=steps))]
+
+
+def fam_repeated_axis(rng, spec, recs, fa):
+    """filter_by_axis naming the same domain axis more than once (key, key%, coordinate identity, position)."""
+    das = [r for r in recs if r["type"] == "domain_axis"]
+    if not das:
+        return []
+    d = rng.choice(das)
+    names = [{"s": d["key"]}, {"s": "key%" + d["key"]}]
+    names += [{"s": i} for i in d["ids"]]
+    for r in recs:
+        if r["type"] in ("dimension_coordinate", "auxiliary_coordinate") and r["axes"] == [d["key"]] and r["ids"]:
+            names.append({"s": rng.choice(r["ids"])})
+            names.append({"s": r["key"]})
+    if fa and d["key"] in fa:
+        names += [{"i": fa.index(d["key"])}, {"i": fa.index(d["key"]) - len(fa)}]
+    vals = [rng.choice(names) for _ in range(rng.choice([2, 2, 3]))]
+    if rng.random() < 0.4 and len(das) > 1:
+        vals.insert(rng.randrange(len(vals) + 1), {"s": rng.choice(das)["key"]})
+    f = {"f": "ax", "mode": rng.choice(["exact", "exact", "subset", "and", "or"]), "a": vals}
+    if rng.random() < 0.6:
+        prog = [{"k": "M", "todict": rng.random() < 0.4, "fs": [f], "call": False}]
+    else:
+        prog = [{"k": "F", "todict": rng.random() < 0.4, "fs": [gen_filter(rng, recs, fa, kinds=["ty", "nx", "da"]), f]}]
+    out = [("C18.sel", dict(field=spec, prog=prog))]
+    if rng.random() < 0.3:
+        name = rng.choice(["construct", "coordinate", "auxiliary_coordinate", "dimension_coordinate", "cell_measure", "domain_ancillary"])
+        out.append(("C18.acc", dict(field=spec, acc=name, ids=[], flts=[f], **{"def": rng.choice(["none", "exc", "all"]) if name != "construct" else "none"},
+                                    style="key", todict=False)))
+    return out
+
+
+def fam_numeric_property(rng, spec, recs, fa):
+    have = [(r, n, v) for r in recs if r["props"] for n, v in r["props"].items() if not isinstance(v, str)]
+    if not have:
+        return []
+    r, n, v = rng.choice(have)
+    a = [[n, gen_num_q(rng, v)]]
+    if rng.random() < 0.4:
+        others = [(m, w) for m, w in r["props"].items() if m != n and m.isidentifier()]
+        if others:
+            m, w = rng.choice(others)
+            a.insert(rng.randrange(2), [m, gen_num_q(rng, w) if not isinstance(w, str) else gen_value_q(rng, [w], miss=("nonexistent",))])
+    f = {"f": "pr", "mode": rng.choice(["and", "or"]), "a": a, "omit_mode": False}
+    if rng.random() < 0.7:
+        return [("C18.sel", dict(field=spec, prog=[{"k": rng.choice(["M", "F"]), "todict": False, "fs": [f], "call": False}]))]
+    name = rng.choice([x for x, ts in ACCESSORS.items() if not ts or r["type"] in ts])
+    return [("C18.acc", dict(field=spec, acc=name, ids=[], flts=[f], **{"def": rng.choice(["none", "exc"])}, style="key", todict=False))]
+
+
+def gen_cm(rng, recs, fa):
+    cms = [r for r in recs if r["type"] == "cell_method"]
+    das = [r for r in recs if r["type"] == "domain_axis"]
+    coords = [r for r in recs if r["type"] in ("dimension_coordinate", "auxiliary_coordinate") and r["axes"] and len(r["axes"]) == 1]
+    ids = []
+    r = rng.random()
+    if r > 0.1:
+        for _ in range(rng.choice([1, 1, 1, 2, 2, 3])):
+            t = rng.random()
+            if cms and t < 0.3:
+                c = rng.choice(cms)
+                ids.append({"s": rng.choice(c["ids"] + [c["key"], "key%" + c["key"]])})
+            elif das and t < 0.55:
+                d = rng.choice(das)
+                ids.append({"s": rng.choice(d["ids"] + [d["key"], d["key"]])})
+            elif coords and t < 0.8:
+                c = rng.choice(coords)
+                ids.append({"s": rng.choice(c["ids"] + [c["key"]])})
+            elif t < 0.88:
+                ids.append({"i": rng.randint(-3, 3)})
+            else:
+                ids.append({"s": rng.choice(["nonexistent", "method:nonexistent", "zzz", "area"])})
+        if len(ids) == 1 and rng.random() < 0.2 and "s" in ids[0] and ids[0]["s"]:
+            ids = [regex_of(rng, ids[0]["s"])]
+    flts, seen = [], set()
+    for _ in range(rng.choice([0, 0, 0, 1, 1, 2])):
+        f = gen_filter(rng, cms or recs, fa, kinds=["mt", "mt", "key", "nv", "pr", "nx"])
+        if f["f"] not in seen:
+            seen.add(f["f"]); flts.append(f)
+    return dict(ids=ids, flts=flts, **{"def": rng.choice(["all", "all", "all", "none", "val", "exc"])}, todict=rng.random() < 0.5,
+                idkw=rng.choice([None, None, None, "first", "last"]))
+
+
+def gen_dax_kw(rng, recs, fa):
+    """domain_axes with identities AND other filter keywords."""
+    base = gen_dax(rng, recs, fa)
+    das = [r for r in recs if r["type"] == "domain_axis"]
+    flts, seen = [], set()
+    for _ in range(rng.choice([1, 1, 2])):
+        f = gen_filter(rng, das or recs, fa, kinds=["sz", "sz", "nd", "nd", "key", "nv", "da"])
+        if f["f"] not in seen:
+            seen.add(f["f"]); flts.append(f)
+    base["flts"] = flts
+    base["idkw"] = rng.choice([None, None, None, "first", "last"])
+    return base
+
+
 def _emit(stream, payload):
     """A case, unless it has no documented meaning *and* the shape of a recorded defect
     (there the model, which mirrors the repaired code, has no authority either)."""
     c = mk(stream, payload)
-    if "finding-shape" in c.tags and o_expected(c) is None:
+    if stream in ("C18.err", "C18.idn"):
+        return c
+    if o_expected(c) is None and ("finding-shape" in c.tags or stream == "C18.cm"):
+        # (cell_methods passes the misses on as a *set*: where the two readings differ the result may
+        # depend on the hash order of the values)
         return None
     return c
 
 
 def gen(rng, tier, n):
-    per_field = 40
+    per_field = 60
     done = 0
     while done < n:
         spec = expand_field_spec(gen_field_spec(rng))
@@ -1086,17 +1764,68 @@ def gen(rng, tier, n):
             for s in r["ids"]:
                 if s in keys and s != r["key"] and len(out) < m:
                     out.append(_emit("C18.sel", dict(field=spec, prog=[{"k": "M", "todict": False, "fs": [{"f": "id", "a": [{"s": s}]}], "call": False}])))
+                    # with a value that is not a key the pre-pass cannot consume them all: no exclusion then
+                    other = rng.choice([{"s": "zzz"}, {"s": "long_name=zzz"}, {"p": [[False, "zzz"]]}])
+                    ids2 = [{"s": s}, other] if rng.random() < 0.5 else [other, {"s": s}]
+                    out.append(_emit("C18.sel", dict(field=spec, prog=[{"k": "M", "todict": rng.random() < 0.3, "fs": [{"f": "id", "a": ids2}], "call": False}])))
+        # the targeted families (about a third of the field's share)
+        fams = [(fam_multi_ids, 6), (fam_empty_chain, 3), (fam_inverse_inverse, 2), (fam_repeated_axis, 2),
+                (fam_numeric_property, 2)]
+        for fam, k in fams:
+            for _ in range(k):
+                if len(out) >= m:
+                    break
+                for stream, payload in fam(rng, spec, recs, fa):
+                    out.append(_emit(stream, payload))
         tries = 0
         while len(out) < m and tries < 10 * m:
             tries += 1
             r = rng.random()
-            if r < 0.66:
+            if r < 0.6:
                 c = _emit("C18.sel", dict(field=spec, prog=gen_prog(rng, recs, fa)))
-            elif r < 0.9:
+            elif r < 0.8:
                 c = _emit("C18.acc", dict(field=spec, **gen_acc(rng, recs, fa)))
+            elif r < 0.87:
+                c = _emit("C18.dax", dict(field=spec, flts=[], **gen_dax(rng, recs, fa)))
+            elif r < 0.91:
+                c = _emit("C18.dax", dict(field=spec, **gen_dax_kw(rng, recs, fa)))
+            elif r < 0.94:
+                c = _emit("C18.dak", dict(field=spec, **gen_dak(rng, recs, fa)))
             else:
-                c = _emit("C18.dax", dict(field=spec, **gen_dax(rng, recs, fa)))
+                c = _emit("C18.cm", dict(field=spec, **gen_cm(rng, recs, fa)))
             out.append(c)
+        # identity() against identities() and selection, for two constructs of the field
+        for r in rng.sample(recs, min(2, len(recs))):
+            out.append(_emit("C18.idn", dict(field=spec, idn=r["key"])))
+        # the stated errors (two per field)
+        for _ in range(2):
+            k = rng.choice(sorted(ERR_KINDS))
+            pl = dict(field=spec, err=k, a=rng.choice(SN[:6] + ["zzz"]), b=rng.choice(SN[:6]))
+            if k.startswith(("accessor", "plural", "default")):
+                pl["acc"] = rng.choice([a for a in PLURAL if a != "construct"]) if not k.startswith("default") else rng.choice(sorted(PLURAL))
+            out.append(_emit("C18.err", pl))
+        # the same kinds of query on the field's Domain (no data axes, no field-only constructs)
+        if rng.random() < 0.4:
+            dm, dm0, dfp, drecs, dfa = get_field(spec, "domain")
+            nd = 0
+            fams_d = [fam_multi_ids, fam_empty_chain, fam_repeated_axis]
+            while nd < 10:
+                r = rng.random()
+                if r < 0.3:
+                    todo = rng.choice(fams_d)(rng, spec, drecs, dfa)
+                elif r < 0.6:
+                    todo = [("C18.sel", dict(field=spec, prog=gen_prog(rng, drecs, dfa)))]
+                elif r < 0.8:
+                    todo = [("C18.acc", dict(field=spec, **gen_acc(rng, drecs, dfa)))]
+                elif r < 0.87:
+                    todo = [("C18.dak", dict(field=spec, **gen_dak(rng, drecs, dfa)))]
+                else:
+                    todo = [("C18.dax", dict(field=spec, **(gen_dax_kw(rng, drecs, dfa) if rng.random() < 0.4 else dict(flts=[], **gen_dax(rng, drecs, dfa)))))]
+                for stream, payload in todo:
+                    nd += 1
+                    if stream == "C18.cm" or payload.get("acc") == "field_ancillary":
+                        continue
+                    out.append(_emit(stream, dict(payload, on="domain")))
         out = [c for c in out if c is not None]
         for c in out:
             yield c
@@ -1185,25 +1914,146 @@ def _identity_lists(p):
     return out
 
 
+def _identity_lists_scoped(p):
+    """(values, records they are matched against) for every identity list of the case."""
+    recs = p.get("recs") or []
+    out = []
+    if p.get("ids"):
+        if "acc" in p:
+            ts = ACCESSORS[p["acc"]]
+            out.append((p["ids"], [r for r in recs if not ts or r["type"] in ts]))
+        else:
+            out.append((p["ids"], recs))
+    fls = list(p.get("flts", []))
+    for s in p.get("prog", []):
+        fls += s.get("fs", [])
+    for f in fls:
+        if f["f"] == "id" and f["a"]:
+            out.append((f["a"], recs))
+    return out
+
+
+def _got_keys(c):
+    """The keys the implementation returned (None before the implementation has run / not a key set)."""
+    out = c.impl_out
+    if not isinstance(out, str) or not out.startswith("keys=["):
+        return None
+    return set(k for k in out[6:-1].split(",") if k)
+
+
+def _known_routes(c):
+    """Shapes of the open findings of Field.cell_methods / Constructs.domain_axes: a predicate of the input,
+    and - once the implementation has run - of an output that is the one the recorded defect produces."""
+    p = c.payload
+    recs, fa = p["recs"], p["fa"]
+    ids, flts = p["ids"], p.get("flts", [])
+    if not ids:
+        return None
+    ran = c.impl_out is not None
+    got = _got_keys(c)
+    if c.stream == "C18.dax":
+        if p.get("idkw") == "first" and flts and (not ran or c.impl_out in ("raised:AttributeError", "raised:TypeError")):
+            return "domain-axes-keyword-identity-not-last"
+        scope = o_scope(recs, fa, "domain_axis", flts)
+        if flts:
+            inscope = {r["key"] for r in scope}
+            outside = set()
+            for q in ids:
+                if not any(o_identity(r, [q]) for r in scope):
+                    a, _ = o_resolve(recs, fa, q, check_ids=False)
+                    if a is not None and a not in inscope:
+                        outside.add(a)
+            if outside and (got is None or got & outside):
+                return "domain-axes-coordinate-route-drops-filter-keywords"
+        return None
+    scope = o_scope(recs, fa, "cell_method", flts)
+    inscope = {r["key"] for r in scope}
+    cms = [r for r in recs if r["type"] == "cell_method"]
+    misses = [q for q in ids if not any(o_identity(r, [q]) for r in scope)]
+    if not misses:
+        return None
+    lo, up = o_dax(recs, fa, misses)
+    if up and any(r["cmaxes"] is None for r in cms) and (not ran or c.impl_out == "raised:TypeError"):
+        return "cell-methods-axis-route-cell-method-without-axes"
+    extra_up = {r["key"] for r in cms if r["cmaxes"] is not None and len(r["cmaxes"]) == 1 and r["cmaxes"][0] in up}
+    extra_lo = {r["key"] for r in cms if r["cmaxes"] is not None and len(r["cmaxes"]) == 1 and r["cmaxes"][0] in lo}
+    direct = {r["key"] for r in scope if o_identity(r, ids)}
+    if (extra_up - inscope) and (got is None or got & (extra_up - inscope)):
+        return "cell-methods-axis-route-drops-filter-keywords"
+    if not direct and not extra_lo and cms:
+        allk = {r["key"] for r in cms}
+        if not ran or got == allk or (p["def"] != "all" and len(allk) == 1 and c.impl_out == "key=" + next(iter(allk))):
+            return "cell-methods-no-match-selects-all"
+    return None
+
+
 def _known(c):
     p = c.payload
+    if c.stream == "C18.idn":
+        # identity() fell through to an identity that HEAD's short iteration does not generate
+        # (behind a measure:/cell:/connectivity: identity, or contributed by the bounds)
+        out = str(c.impl_out)
+        if out.startswith("not selected by its identity() "):
+            r = next((x for x in p.get("recs") or [] if x["key"] == p["idn"]), None)
+            if r is not None:
+                pos = [i for i, t in enumerate(r["ids"]) if repr(t) == out[len("not selected by its identity() "):]]
+                allowed = ({r["npre"]} if r["npre"] > 0 else set()) | ({len(r["ids"]) - r["npost"]} if r["npost"] > 0 else set())
+                if pos and 0 not in pos and set(pos) <= allowed and _bare(r["ids"][pos[0]]):
+                    return "short-iteration-bare-identity-not-first"
+                # the identity is the key of ANOTHER construct: the single value is consumed by the key pre-pass
+                ident = [t for t in r["ids"] if repr(t) == out[len("not selected by its identity() "):]]
+                if ident and any(x["key"] != r["key"] and ident[0] in (x["key"], "key%" + x["key"]) for x in p["recs"]):
+                    return "identity-equal-to-another-constructs-key"
+        return None
+    if c.stream == "C18.err":
+        return None
     recs = p.get("recs") or []
     keys = {r["key"] for r in recs}
+    if c.stream in ("C18.dax", "C18.cm"):
+        sig = _known_routes(c)
+        if not sig:
+            # the same shapes as HEAD's short iteration sees the coordinates (two open findings combined)
+            global _HEAD_SHORT
+            _HEAD_SHORT = True
+            try:
+                sig = _known_routes(c)
+            finally:
+                _HEAD_SHORT = False
+        if sig:
+            return sig
     # an identity equal to another construct's key, and asked for
+    # (the defect needs EVERY value of the call to be a key: C18_identity_exact)
+    def _is_key(q):
+        return "s" in q and (q["s"] in keys or (q["s"].startswith("key%") and q["s"][4:] in keys))
     for qs in _identity_lists(p):
+        if not all(_is_key(q) for q in qs):
+            continue
         for q in qs:
-            if "s" in q:
-                s = q["s"]
-                k = s[4:] if s.startswith("key%") else s
-                if k in keys and any(s in r["ids"] and r["key"] != k for r in recs):
-                    return "identity-equal-to-another-constructs-key"
+            s = q["s"]
+            k = s[4:] if s.startswith("key%") else s
+            if any(s in r["ids"] and r["key"] != k for r in recs):
+                return "identity-equal-to-another-constructs-key"
     # short iteration: all values bare, and some construct reports one of them not first
     for qs in _identity_lists(p):
         if all("s" in q and _bare(q["s"]) for q in qs):
             want = {q["s"] for q in qs}
+            shape, elsewhere = False, False
             for r in recs:
-                if any(s in want for s in r["ids"][1:]) and not (r["ids"] and r["ids"][0] in want):
-                    return "short-iteration-bare-identity-not-first"
+                pos = [i for i, s in enumerate(r["ids"]) if s in want]
+                if pos and 0 not in pos:
+                    # the recorded defect loses the first identity of the body behind a measure: / cell: /
+                    # connectivity: identity, and the first identity contributed by the bounds - nothing else
+                    allowed = set()
+                    if r["npre"] > 0:
+                        allowed.add(r["npre"])
+                    if r["npost"] > 0:
+                        allowed.add(len(r["ids"]) - r["npost"])
+                    if set(pos) <= allowed:
+                        shape = True
+                    else:
+                        elsewhere = True
+            if shape and not elsewhere and (c.impl_out is None or c.impl_out == _as_head(c)):
+                return "short-iteration-bare-identity-not-first"
     prog = p.get("prog")
     if prog is not None:
         applied = 0
@@ -1250,8 +2100,12 @@ def classify(c):
         what = last[0]["fs"][-1]["f"] if last[0].get("fs") else last[0]["k"]
     elif c.stream == "C18.acc":
         what = p["acc"]
+    elif c.stream == "C18.err":
+        return "unexplained:C18.err:" + p["err"]
+    elif c.stream == "C18.idn":
+        return "unexplained:C18.idn"
     else:
-        what = "domain_axes" if p["def"] == "all" else "domain_axis"
+        what = c.stream.split(".")[1] + (":all" if p["def"] == "all" else ":single")
     kind = "raised" if str(c.impl_out).startswith("raised") and p.get("def") != "exc" else "wrong-result"
     return f"unexplained:{c.stream}:{kind}:{what}"
 
